@@ -102,6 +102,52 @@ def multiframe_inputs(mk_exe, arcs):
 
 AE_IFREG = 0o100000
 
+def _tar_header(name, size, typeflag=b"0", mode=0o644):
+    h = bytearray(512)
+    h[0:len(name)] = name
+    h[100:108] = b"%07o\0" % mode
+    h[108:116] = b"%07o\0" % 0
+    h[116:124] = b"%07o\0" % 0
+    h[124:136] = b"%011o\0" % size
+    h[136:148] = b"%011o\0" % 1000
+    h[148:156] = b" " * 8
+    h[156:157] = typeflag
+    h[257:263] = b"ustar\0"
+    h[263:265] = b"00"
+    h[148:156] = b"%06o\0 " % sum(h)
+    return bytes(h)
+
+def pax_inputs():
+    """pax extended headers whose records are longer than any read-ahead window: very long keywords and values, the
+    input ending (or a read block ending) inside them; a 100 KiB member in front puts the header beyond the bytes
+    the bidders buffered, so that it is parsed straight from the client's block"""
+    out = []
+    def pad(b):
+        return b + bytes(-len(b) % 512)
+    def rec(k, v):
+        body = b" " + k + b"=" + v + b"\n"
+        n = len(body) + 1
+        while len(b"%d" % n) + len(body) != n:
+            n = len(b"%d" % n) + len(body)
+        return b"%d" % n + body
+    member = _tar_header(b"first.bin", 100000) + pad(bytes((i * 5 + 1) & 0xff for i in range(100000)))
+    plain = _tar_header(b"after.txt", 6) + pad(b"after\n")
+    eoa = bytes(1024)
+    for label, records in (("long-keyword", rec(b"K" * 1500, b"v") + rec(b"path", b"renamed.txt")),
+                           ("long-value", rec(b"comment", b"c" * 3000) + rec(b"path", b"renamed.txt")),
+                           ("many-records", b"".join(rec(b"LIBARCHIVE.xattr.user.k%03d" % i, b"dmFsdWU") for i in range(120))),
+                           ("keyword-at-end", rec(b"path", b"renamed.txt") + rec(b"Q" * 700, b""))):
+        xhdr = _tar_header(b"PaxHeader/after.txt", len(records), b"x") + pad(records)
+        for front, fl in ((b"", "start"), (member, "late")):
+            whole = front + xhdr + plain + eoa
+            base = len(front) + 512
+            out.append(("pax:%s:%s" % (label, fl), whole, []))
+            for cut in (base + 5, base + 300, base + 600, base + 1024, base + len(records) - 1, base + len(records) // 2):
+                if cut < len(whole):
+                    out.append(("pax:%s:%s:cut@%d" % (label, fl, cut - base), whole[:cut], []))
+                    out.append(("pax:%s:%s:block@%d" % (label, fl, cut - base), whole, [cut, len(whole)]))
+    return out
+
 def run_resilient(rep, exe, cases, meta, per_batch_timeout):
     """run cases; after a crash/hang report the culprit and continue with the rest"""
     lines = []
@@ -193,6 +239,9 @@ def run(rep):
             continue
         rcases.append(readcore.read_case(data, source=(0,), rplan=[512] * (len(data) // 512 + 2), consume=(0, 4096, 0)))
         meta.append((name, "intact", 512, (0, 4096, 0)))
+    for name, data, plan in pax_inputs():
+        rcases.append(readcore.read_case(data, source=(0,), rplan=plan, consume=(0, 4096, 0)))
+        meta.append((name, "crafted", plan[0] if plan else 0, (0, 4096, 0)))
     for name, data in multiframe_inputs(mk, arcs):
         for plan in ([], [10240] * (len(data) // 10240 + 2)):
             rcases.append(readcore.read_case(data, source=(0,), rplan=plan, consume=(0, 4096, 0)))
